@@ -8,10 +8,13 @@ EXTENDS FlowSem
 CONSTANTS MaxN, MaxDur
 VARIABLES sc
 Scenarios ==
-  [op : {"collect"}, acts : UNION {[1..n -> [d : 0..MaxDur, f : BOOLEAN]] : n \in 0..MaxN}, k : {0}, cons : {"prompt"}]
+  [op : {"collect"}, acts : UNION {[1..n -> [d : 0..MaxDur, f : BOOLEAN]] : n \in 0..MaxN}, k : {0},
+   cons : {"prompt", "cancel1", "close1"}]
   \cup
   [op : {"first"}, acts : UNION {[1..n -> [d : 0..MaxDur, f : BOOLEAN]] : n \in 1..MaxN},
-   k : {0, 1, 2, 3, 4, 99}, cons : {"prompt", "slow", "break1", "cancel1"}]
+   k : {0, 1, 2, 3, 4, 99}, cons : {"prompt", "slow", "break1", "cancel1", "close1"}]
+\* consumer behaviours: prompt / slow (suspends between results) / break1 (leaves the iteration after one result) /
+\* cancel1 (the caller is cancelled at +1) / close1 (the caller is a volatile task closed forcefully at +1)
 Init == sc \in Scenarios
 Next == UNCHANGED sc
 Spec == Init /\ [][Next]_sc
